@@ -19,8 +19,5 @@ META = {
 
 
 def run(ctx):
-    for r in (dt.r05_1, dt.r05_2, dt.r05_3, dt.r05_4, dt.r05_6, dt.r02_1, dt.r03_2, dt.r03_3, dt.r02_6):
-        try:
-            r(ctx)
-        except shared.AnchorMissing:
-            pass
+    import engine
+    engine.run_rules(ctx, [dt.r05_1, dt.r05_2, dt.r05_3, dt.r05_4, dt.r05_6, dt.r02_1, dt.r03_2, dt.r03_3, dt.r02_6])
